@@ -306,6 +306,7 @@ class CMach:
     def __init__(self, tu, hooks=None, max_steps=60000):
         self.tu, self.hooks, self.max_steps = tu, hooks or {}, max_steps
         self.watch = ()     # struct types whose objects carry the decoded values
+        self.ext = None     # optional model of functions without a body in this TU: ext(M, st, name, values, node)
         self._x, self._s, self._loc, self._tabs, self._inert = {}, {}, {}, {}, {}
 
     # -- memory -----------------------------------------------------------------------------
@@ -817,6 +818,9 @@ class CMach:
                 if kind(c) == "CompoundStmt":
                     body = c
         if body is None:
+            if self.ext is not None and name:
+                fargs = [self.X(a) for a in args]
+                return lambda st: self.ext(self, st, name, [f(st) for f in fargs], n)
             return lambda st: None        # external function without a model: no effect on the decoded values, value unknown
         fargs = [self.X(a) for a in args]
         pnames = [p.get("name") for p in self.tu.fparams(fd)]
@@ -1562,6 +1566,307 @@ def trxcon_tx_semantic(L, repo, spec, tier, tu):
     L.ob("C04.R4", FC, fn_, "trxcon's transmit buffer holds header + the largest burst (%d)" % largest_tx,
          ">= %d" % largest_tx, ext2, ext2 is not None and ext2 >= largest_tx)
     L.extra["c04_tx_runs"] = cnt[0]
+
+
+# ---------------------------------------------------------------------------------------------
+# C04.R6: the storage the burst indication points to keeps the converted soft bits until the
+# indication is delivered (aliasing / lifetime across the calls made before the delivery)
+# ---------------------------------------------------------------------------------------------
+_MAIN_STUB_DEFINES = ("LOG_FILENAME_BASENAME=0", "LOG_FILENAME_POS_LINE_END=0")
+
+
+def _trxcon_tu(L, relfile):
+    """translation unit of src/host/trxcon/<relfile>, parsed once per run (None if clang cannot parse it with the
+    analysis stubs; the declaration-only stub of libosmocore's logging.h lacks two enumerators trxcon_main.c uses)"""
+    cache = L.__dict__.setdefault("_c04_tus", {})
+    if relfile not in cache:
+        t = None
+        for defs in ((), _MAIN_STUB_DEFINES):
+            try:
+                t = TU(L.repo, "trxcon", relfile, defines=defs, L=L)
+                break
+            except AnalysisError:
+                t = None
+        cache[relfile] = t
+    return cache[relfile]
+
+
+class _Calls:
+    """Resolved direct-call graph over trxcon's own translation units, explored on demand: which functions defined
+    (with a body) in the home translation unit can a function called from it reach through direct calls?  A callee is
+    resolved to the FunctionDecl with a body in the clang AST of the file that defines it (the file is located by a
+    scan of the sources, the definition is confirmed in its AST); calls through pointers, library functions and files
+    clang cannot parse end a chain (no verdict is derived from them)."""
+    MAX_FUNCS = 64
+
+    def __init__(self, L, home):
+        self.L, self.home = L, home
+        self._src = None
+        self._def = {}
+        self._re = {}
+
+    def _sources(self):
+        if self._src is None:
+            self._src = {}
+            d = os.path.join(self.L.repo, KINDS["trxcon"]["cwd"], "src")
+            try:
+                names = sorted(os.listdir(d))
+            except OSError:
+                names = []
+            for fn_ in names:
+                if fn_.endswith(".c"):
+                    try:
+                        with open(os.path.join(d, fn_), encoding="utf-8", errors="replace") as f:
+                            self._src["src/" + fn_] = f.read()
+                    except OSError:
+                        pass
+        return self._src
+
+    @staticmethod
+    def _body(fd):
+        for c in kids(fd or {}):
+            if kind(c) == "CompoundStmt":
+                return c
+        return None
+
+    def definition(self, name):
+        """(tu, FunctionDecl with body) | None"""
+        if name in self._def:
+            return self._def[name]
+        r = None
+        if self._body(self.home.functions.get(name)) is not None:
+            r = (self.home, self.home.functions[name])
+        else:
+            from cfront import slice_function
+            home_rel = os.path.relpath(self.home.rel, KINDS["trxcon"]["cwd"])
+            for relfile, text in self._sources().items():
+                if relfile == home_rel or name not in text:
+                    continue
+                try:
+                    slice_function(text, name)
+                except AnalysisError:
+                    continue
+                t = _trxcon_tu(self.L, relfile)
+                if t is not None and self._body(t.functions.get(name)) is not None:
+                    r = (t, t.functions[name])
+                    break
+        self._def[name] = r
+        return r
+
+    def callees(self, fd):
+        out = []
+        for n in walk(self._body(fd)):
+            if kind(n) == "CallExpr":
+                c = strip(kids(n)[0])
+                rd = c.get("referencedDecl", {}) if kind(c) == "DeclRefExpr" else {}
+                if rd.get("kind") == "FunctionDecl" and rd.get("name") and rd["name"] not in out:
+                    out.append(rd["name"])
+        return out
+
+    def reentries(self, name):
+        """[(function of the home TU, call chain from `name`)] reachable from the external function `name`"""
+        if name in self._re:
+            return self._re[name]
+        found, seen, queue = [], {name}, [(name, (name,))]
+        while queue and len(seen) <= self.MAX_FUNCS:
+            cur, path = queue.pop(0)
+            d = self.definition(cur)
+            if d is None:
+                continue
+            if d[0] is self.home:
+                if cur != name:
+                    found.append((cur, path))
+                continue                      # what it calls inside the home TU is evaluated with it
+            for c in self.callees(d[1]):
+                if c not in seen:
+                    seen.add(c)
+                    queue.append((c, path + (c,)))
+        self._re[name] = found
+        return found
+
+
+def _mem_name(base):
+    """readable name of a CMach memory object (`<object>.<member>@<frame id>` for a buffer inside a struct object)"""
+    b = str(base)
+    i = b.rfind("@")
+    if i > 0 and all(ch in "0123456789abcdef" for ch in b[i + 1:]) and len(b) - i > 6:
+        b = b[:i]
+    return b
+
+
+def r6_burst_storage(L, repo, spec, tier, tu):
+    """C04.R6 -- decides a necessary condition of the clause `every version-0 burst the toolkit sends towards L1 is
+    decoded by trxcon to the same ... soft bits` at its observation point (the trxcon_phyif_burst_ind handed to the
+    scheduler): the object the indication's `burst` member points into still holds the soft bits converted from the
+    received datagram when trxcon_phyif_handle_burst_ind() is called.  trx_data_rx_cb() is evaluated (closure compiler
+    over the clang AST) on valid datagrams twice: with every function that has no body in trx_if.c treated as having no
+    effect, and with each such call that is executed before the delivery resolved through the direct-call graph of
+    trxcon's translation units - when a chain of direct calls leads back into a function of trx_if.c whose parameters
+    are the transceiver instance and a PHYIF burst request (the TRXD transmit path), that function is evaluated at the
+    call, on the same transceiver instance, with an uplink burst due.  What is handed to the delivery hook must be the
+    same in both evaluations; a difference means that the transmit path writes the storage the indication still points
+    to (shared PDU buffer + a call that transmits before the delivery).  Separate buffers, the delivery made first, or
+    the burst copied out before the call leave both evaluations equal - the rule never looks at names, declaration
+    sites or statement order."""
+    R, FC, fn_ = "C04.R6", tu.rel, "trx_data_rx_cb"
+    f = tu.func(fn_)
+    L.fn(FC, fn_)
+    flds = tu.record_fields("trxcon_phyif_burst_ind")
+    names = [nm for nm, _ in flds]
+    if not {"tn", "fn", "rssi", "toa256", "burst", "burst_len"} <= set(names):
+        raise AnalysisError("struct trxcon_phyif_burst_ind: anchor members tn/fn/rssi/toa256/burst/burst_len not found")
+    rnames = [nm for nm, _ in tu.record_fields("trxcon_phyif_burst_req")]
+    if not {"tn", "fn", "pwr", "burst", "burst_len"} <= set(rnames):
+        raise AnalysisError("struct trxcon_phyif_burst_req: anchor members tn/fn/pwr/burst/burst_len not found")
+    # the transceiver instance: the object the callback's osmo_fd carries in `data`
+    ofd = [p for p in tu.fparams(f) if _clean((p.get("type") or {}).get("qualType", "")) == "struct osmo_fd *"]
+    inst_t = None
+    if len(ofd) == 1:
+        for n in walk(tu.body(f)):
+            init = None
+            if kind(n) == "VarDecl" and kids(n):
+                init, qt = kids(n)[-1], _clean((n.get("type") or {}).get("qualType", ""))
+            elif kind(n) == "BinaryOperator" and n.get("opcode") == "=":
+                init, qt = kids(n)[1], _clean((kids(n)[0].get("type") or {}).get("qualType", ""))
+            if init is None or not (qt.startswith("struct ") and qt.endswith("*")):
+                continue
+            src = strip(init, casts=True)
+            if kind(src) == "MemberExpr" and src.get("name") == "data" and src.get("isArrow") and \
+                    kind(strip(kids(src)[0])) == "DeclRefExpr" and \
+                    strip(kids(src)[0]).get("referencedDecl", {}).get("name") == ofd[0].get("name"):
+                inst_t = qt
+                break
+    G = _Calls(L, tu)
+    sp, spt = spec["Rx"]["0"], spec["Tx"]["0"]
+    hl, pad = sp["hdr_len"], sp["burst"]["legacy_pad"]
+    off = {fd.get("name"): fd for fd in spec["hdr_common"] + sp["fields"] if fd.get("name")}
+    tlens = spt["burst"]["lengths"]
+    stat = {"resolved": set(), "modelled": 0, "skipped": set()}
+
+    def quiet_send(M, st, a, n):
+        return a[2] if len(a) > 2 and isinstance(a[2], int) else None
+
+    def plan(fd):
+        """how to bind the parameters of a re-entered function: instance pointer / witness burst request; None if the
+        function takes anything else (not the TRXD transmit path: not modelled)"""
+        out = []
+        for p in tu.fparams(fd):
+            qt = _clean((p.get("type") or {}).get("qualType", ""))
+            if inst_t is not None and qt == inst_t:
+                out.append("inst")
+            elif qt == "struct trxcon_phyif_burst_req *":
+                out.append("req")
+            else:
+                return None
+        return out if "req" in out and "inst" in out else None
+
+    def ext(M, st, name, vals, node):
+        if not st.out.get("model") or st.out.get("busy"):
+            return None
+        targets = G.reentries(name)
+        stat["resolved"].add(name)
+        for g, path in targets:
+            fd = tu.functions[g]
+            pl = plan(fd)
+            if pl is None:
+                stat["skipped"].add(g)
+                continue
+            j = st.out["j"]
+            bl = tlens[j % len(tlens)]
+            ul = {"@ul.tn": j & 7, "@ul.fn": (j * 10601 + 9) % H_FRAMES, "@ul.pwr": (j * 29) & 0xff,
+                  "@ul.burst": ("ptr", "@ulbits", 0), "@ul.burst_len": bl}
+            st.mem["@ulbits"], st.esz["@ulbits"] = [((i * i + i // 3 + j) >> 1) & 1 for i in range(bl)], 1
+            vals_ = [st.out["inst"] if k == "inst" else ("ref", "@ul", ul) for k in pl]
+            before = {b: list(m) for b, m in st.mem.items()}
+            saved = st.env
+            st.env = dict(zip([p.get("name") for p in tu.fparams(fd)], vals_))
+            st.depth += 1
+            st.out["busy"] = True
+            try:
+                M.S(tu.body(fd))(st)
+            except _Goto as jmp:
+                raise AnalysisError("C evaluation: goto %s into a nested block" % jmp.label)
+            except AnalysisError as e:
+                raise AnalysisError("trx_data_rx_cb: %s() is reached from the call of %s() made before the burst indication is delivered, but cannot be evaluated there (%s)" % (
+                    g, name, str(e)[:120]))
+            finally:
+                st.env = saved
+                st.depth -= 1
+                st.out["busy"] = False
+            stat["modelled"] += 1
+            changed = sorted(b for b, m in st.mem.items() if b in before and m != before[b])
+            st.out.setdefault("re", []).append((name, g, path, changed))
+        return None
+    hooks = dict(_tx_hooks())
+    hooks.update(_rx_hooks(names, dict(flds)))
+    hooks.update({"send": quiet_send, "sendto": quiet_send, "write": quiet_send})
+    M = CMach(tu, hooks)
+    M.watch = ("trxcon_phyif_burst_ind", "trxcon_phyif_burst_req")
+    M.ext = ext
+
+    def run(j, d, model):
+        st = CState()
+        frame = {}
+        inst = ("ref", "(%s)" % inst_t[:-1].strip(), frame) if inst_t else None
+        args = {}
+        if inst is not None:
+            frame["@ofd.data"] = inst
+            args[ofd[0].get("name")] = ("ref", "@ofd", frame)
+        st.out.update({"dgram": d, "model": model, "j": j, "inst": inst})
+        try:
+            M.run(f, st, args)
+        except CDone:
+            pass
+        got = st.out.get("ind")
+        if got is not None:
+            got = ({k: v for k, v in got[0].items() if k != "burst"}, got[1], got[0].get("burst"))
+        return got, st.out.get("re") or []
+    fam = []
+    for j in range(12):
+        bl = sp["burst"]["lengths"][1 if (j % 4 == 3 and len(sp["burst"]["lengths"]) > 1) else 0]
+        d = [0] * hl
+        d[0] = j & 7
+        fnv = (j * 170003 + 11) % H_FRAMES
+        o = off["fn"]["off"]
+        d[o:o + 4] = [(fnv >> 24) & 255, (fnv >> 16) & 255, (fnv >> 8) & 255, fnv & 255]
+        d[off["rssi"]["off"]] = 60 + j
+        d[off["toa256"]["off"]], d[off["toa256"]["off"] + 1] = j, (j * 37 + 11) & 0xff
+        d += [(i * 7 + 3 + 19 * j) & 0xff for i in range(bl)] + ([0] * pad if j & 1 else [])
+        fam.append(d)
+    bad, delivered, reent = [], 0, 0
+    for j, d in enumerate(fam):
+        plain, _ = run(j, d, False)
+        if plain is not None:
+            delivered += 1
+        mod, re_ = run(j, d, True)
+        if not re_:
+            continue
+        reent += 1
+        why = "; ".join("%s(), reached from the call of %s() made before the delivery, writes %s (direct calls %s)" % (
+            g, x, ", ".join("`%s`" % _mem_name(b) for b in ch if not str(b).startswith("@ul")) or "nothing", " -> ".join(path))
+            for x, g, path, ch in re_)
+        if (plain is None) != (mod is None):
+            bad.append((why, "burst indication %s" % ("no longer delivered" if mod is None else "delivered only then"), _hex(d)))
+            continue
+        if plain is None:
+            continue
+        diff = sorted(k for k in plain[0] if plain[0][k] != mod[0].get(k))
+        if diff:
+            bad.append((why, "fields handed on / decoded from the datagram: %s" % {k: (mod[0].get(k), plain[0][k]) for k in diff}, _hex(d)))
+        elif plain[1] != mod[1]:
+            a_, b_ = plain[1] or [], mod[1] or []
+            pos = [i for i in range(min(len(a_), len(b_))) if a_[i] != b_[i]]
+            base = _mem_name(mod[2][1]) if _isptr(mod[2]) else "?"
+            bad.append((why, "the indication's `burst` points into `%s`: %d of %d soft bits handed on differ from those converted from the datagram (first: position %s handed on %s, converted %s)" % (
+                base, len(pos) if pos else abs(len(a_) - len(b_)), len(a_), pos[0] if pos else None, b_[pos[0]] if pos else None,
+                a_[pos[0]] if pos else None), _hex(d)))
+    line = tu.line(f)
+    L.floor(R, "burst indications observed at the delivery (valid datagrams, both burst lengths, with / without legacy padding)", delivered, 8)
+    L.ob(R, FC, fn_, "the storage the burst indication's `burst` points into is not written between the reception of the datagram and the call of trxcon_phyif_handle_burst_ind(): a function called before the delivery whose direct-call chain re-enters the TRXD transmit path of trx_if.c (evaluated there on the same transceiver instance with an uplink burst due) leaves the fields and soft bits handed on unchanged",
+         [], bad[:2], not bad, line)
+    L.extra["c04_r6"] = {"datagrams": len(fam), "delivered": delivered, "runs_with_reentry_before_delivery": reent,
+                         "external_callees_resolved": sorted(stat["resolved"]), "transmit_path_evaluations": stat["modelled"],
+                         "reentered_not_modelled": sorted(stat["skipped"]), "instance_type": inst_t}
 
 
 # ---------------------------------------------------------------------------------------------
@@ -2339,6 +2644,7 @@ def r2_r3_trxcon(L, repo, spec, us2s, tier):
             lambda: trxcon_tx_semantic(L, repo, spec, tier, tu),
             lambda: trxcon_tx_structural(L, spec, tu))
     L.stage(r4_python_recv, L, repo, spec)
+    L.stage(r6_burst_storage, L, repo, spec, tier, tu)
 
 
 def run(L, tier):
